@@ -312,6 +312,22 @@ func runC11(rc *RunCtx) {
 			for y := G.Draw(6); y > 0; y-- {
 				simrt.Yield()
 			}
+			if !viaSignal && G.Draw(4) == 0 {
+				// A doomed attempt first: the new configuration also wants an address that
+				// another process holds. It must fail and leave the retained listeners
+				// bound and serving all the way through (the clients keep coming).
+				doomed := *cfgs[v]
+				doomed.Services = append(append([]mSvc(nil), cfgs[v].Services...), mSvc{Listeners: []mLn{{"tcp", "127.0.0.1:9777"}}, Keys: cfgs[v].Services[0].Keys})
+				if fl, err := simnet.ListenTCP("tcp", &net.TCPAddr{IP: net.IPv4(127, 0, 0, 1).To4(), Port: 9777}); err == nil {
+					fl.Foreign = true
+					if err := ms.reload(&doomed, false); err == nil {
+						rc.Failf("doomed-reload-succeeded", "a reload that needs an address held by another socket reported success")
+					}
+					fl.Close()
+					rc.Probe("failed_reload_between_generations")
+					simrt.Sleep(time.Duration(G.Draw(3)) * time.Millisecond)
+				}
+			}
 			if viaSignal {
 				reads := ms.OS.Reads
 				ms.reload(cfgs[v], true)
